@@ -352,3 +352,72 @@ def extra_obligations(tier):
     except Exception as ex:
         obs.append(dict(name='template:extraction', status='unknown', backend='ast-eval', detail='%s: %s' % (type(ex).__name__, ex), key='template:extraction'))
     return obs
+
+
+# ------------------------------------------------------------------ Molecule.sorted_nodes: the order both writers use
+SNode = TKey('SNode')
+INF = 10 ** 9                                               # stands for numpy.inf (larger than every atom id in the contract's world)
+
+
+def setup_sn(cx):
+    eng = cx.eng
+    NODES = cx.val('NODES', TSeq(SNode))
+    cx.spec_env['NODES'] = NODES
+    has_id = cx.uf('has_id', [SNode], TBool)
+    aid = cx.uf('aid', [SNode], TInt)
+    KEYS = cx.heap('KEYS', Box(TSeq(TInt)))                # the sort key of every node, as sorted() computed it
+    SORTED = cx.heap('SORTED', Box(TSeq(SNode)))
+    n_ = z3.Const('n', SNode.sort())
+    cx.assume(z3.ForAll([n_], aid(n_) < INF))
+
+    def node(e, n):
+        ne = to_z3(n, SNode)
+
+        def get(e2, k, d=None):
+            if k != 'atomid':
+                raise EngineError('node.get(%r)' % (k,))
+            if isinstance(d, Obj) and d.cls == 'inf':
+                return SV(TInt, z3.If(has_id(ne), aid(ne), z3.IntVal(INF)))
+            raise EngineError('node.get(atomid, %r)' % (d,))
+        return Obj('atomdict', get=Builtin(get, 'node.get'))
+    nodes = Obj('NodeView', __getitem__=Builtin(node, 'self.nodes[]'))
+    nodes.__dict__['iter'] = NODES
+    cx.spec_env['np'] = Obj('numpy', inf=Obj('inf'))
+
+    def sorted_(e, xs, key=None, reverse=False):
+        # sorted() by its contract: a stable arrangement of xs in increasing order of key(x).  The contract records the
+        # key of every element (evaluated from the real lambda) and returns such an arrangement
+        if xs is not nodes or key is None or reverse is not False:
+            raise EngineError('sorted() of something else')
+        from pyvc.builtins import _int
+        st, it = TSeq(SNode), TSeq(TInt)
+        ks = e.fresh_val(it, 'keys')
+        i = z3.FreshInt('si')
+        kv = e.call(key, [SV(SNode, st.at(NODES.e, i))], {})
+        e.assume(it.len(ks.e) == st.len(NODES.e))
+        if isinstance(kv, (tuple, list)) or not (isinstance(kv, int) or (isinstance(kv, SV) and kv.ty == TInt)):
+            # a key of another shape (a tuple, say) is not the atom id: the obligation below cannot hold
+            e.oblige(False, 'sort-key:is-the-atom-id-alone')
+            kv = e.fresh_val(TInt, 'other_key')
+        e.assume(z3.ForAll([i], z3.Implies(z3.And(0 <= i, i < st.len(NODES.e)), it.at(ks.e, i) == to_z3(kv, TInt))))
+        KEYS.e = ks.e
+        out = e.fresh_val(st, 'sorted')
+        SORTED.e = out.e
+        return out
+    cx.spec_env['sorted'] = Builtin(sorted_, 'sorted')
+    return dict(self=Obj('Molecule', nodes=nodes))
+
+
+sorted_nodes = FunctionContract(
+    'vermouth/molecule.py', 'Molecule.sorted_nodes', 'C02', setup=setup_sn, spec_env=dict(SNode=SNode), result_ty=TSeq(SNode),
+    ensures=[
+        # the atoms are yielded as sorted() arranges the molecule's nodes by one key: the atom id, atoms without one last
+        # (sorted() is stable: atoms with equal keys stay in the molecule's order) - the order the ITP and the PDB writer share
+        "len(KEYS) == len(NODES) and forall(lambda i: implies(0 <= i and i < len(NODES), "
+        "   KEYS[i] == (aid(NODES[i]) if has_id(NODES[i]) else %d)))" % INF,
+        "len(result) == len(SORTED) and forall(lambda i: implies(0 <= i and i < len(result), result[i] == SORTED[i]))",
+    ],
+    modifies=['KEYS', 'SORTED'],
+    canary=[("self.nodes[n_idx].get('atomid', np.inf)", "self.nodes[n_idx].get('atomid', np.inf) + 1")],
+)
+CONTRACTS.append(sorted_nodes)
